@@ -174,3 +174,79 @@ func (r *verifC04EOFReader) ReadAt(p []byte, off int64) (int, error) {
 	}
 	return n, nil
 }
+
+// verifC04KeyLens: supported key lengths around the 8-bit, bufio-buffer (4096) and 16-bit
+// boundaries, and unsupported ones whose 16-bit truncation is 0, small, buffer sized or maximal.
+func verifC04KeyLens() (supported, unsupported []int) {
+	if verifParam("alllens", 0) == 1 {
+		return []int{0, 1, 255, 256, 4095, 4096, 4097, 8192, 65534, 65535},
+			[]int{65536, 65537, 65538, 65791, 69632, 131071, 131072, 131073, 196608}
+	}
+	return []int{0, 4097, 65535}, []int{65536, 65537, 131072}
+}
+
+// verifC04LongKey: a key of n bytes with markers at the start, in the middle and at the end.
+func verifC04LongKey(n int) []byte {
+	k := make([]byte, n)
+	if n > 0 {
+		k[0] = 0x11
+	}
+	if n > 4 {
+		k[n/2] = 0x5a
+		k[n-1] = 0xa5
+	}
+	return k
+}
+
+// C04.legacy36.keylen — key-size class, end to end on the real builder and reader: for a key A of ANY length
+// in the boundary set (supported: 0 .. 65535; unsupported: 65536 .. 196608) inserted before or
+// after a short key B, with arbitrary values and arbitrary hash functions:
+//   - a supported length is never refused: Insert succeeds and Seal fails only with a genuine
+//     (bounded) mining collision;
+//   - for EVERY length: either building fails with an error (Insert or Seal), or the sealed
+//     index returns for both keys exactly the values inserted with them. An index that was
+//     sealed without error but loses or corrupts an entry is a violation, whatever the length.
+func VerifC04LegacyKeyLen() {
+	sup, unsup := verifC04KeyLens()
+	lens := append(append([]int{}, sup...), unsup...)
+	li := verifChoice("keyLen", len(lens))
+	n := lens[li]
+	supported := li < len(sup)
+	verifC04HashRange = 2
+	keys := [][]byte{verifC04LongKey(n), {0x22, 0x33}}
+	fileSize := uint64(0)
+	vals := [][36]byte{verifC04Val(fileSize), verifC04Val(fileSize)}
+	order := []int{0, 1}
+	if verifChoice("order", 2) == 1 {
+		order = []int{1, 0} // the long key is the last tuple of the spill file
+	}
+	declared := []uint{1, 10001}[verifChoice("declared", 2)]
+	path := verifTempPath("keylen.idx")
+	err := verifC04LegacyBuild(path, declared, fileSize, keys, vals, order)
+	if err != nil {
+		if supported {
+			verifAssert(errors.Is(err, ErrCollision), "C04.legacy36.keylen: a key of a supported length (<= 65535 bytes) was refused")
+			verifAssert(verifC04AllNoncesCollide(uint32((declared+9999)/10000), keys) == 1, "C04.legacy36.keylen: ErrCollision although a nonce within the attempt bound separates the keys")
+			verifReach("mining-failed")
+		} else {
+			verifReach("refused")
+		}
+		verifReach("end")
+		return
+	}
+	f, err := os.Open(path)
+	verifAssert(err == nil, "C04.legacy36.keylen: reopen")
+	db, err := Open(f)
+	verifAssert(err == nil, "C04.legacy36.keylen: Open failed on an index that was sealed without error")
+	for i := range keys {
+		got, err := db.Lookup(keys[i])
+		verifAssert(err == nil, "C04.legacy36.keylen: building succeeded but an inserted key is not found (entry lost)")
+		verifAssert(got == vals[i], "C04.legacy36.keylen: building succeeded but an inserted key is found with another value")
+	}
+	if supported {
+		verifReach("sealed")
+	} else {
+		verifReach("sealed-unsupported-length")
+	}
+	verifReach("end")
+}
